@@ -4,16 +4,16 @@
 #include "/repo/opm/input/eclipse/EclipseState/Grid/FieldProps.cpp"
 #include <verif.h>
 using namespace Opm;
-#ifndef NX
-#define NX 2
-#define NY 2
-#define NZ 2
+#ifndef GNX
+#define GNX 2
+#define GNY 2
+#define GNZ 2
 #endif
 #ifndef OP1
 #define OP1 0
 #endif
 #define CEQ(a, b) CHECK(EQ((a), (b)))
-static const int N = NX * NY * NZ;
+static const int N = GNX * GNY * GNZ;
 struct Grid { int act[N]; int aidx[N]; int nact; };
 static Grid mkgrid() {
     Grid g; g.nact = 0;
@@ -26,22 +26,22 @@ static bool hasv(int st) { return st == 1 || st == 2; }
 
 extern "C" void h_box(void) {
     Grid g = mkgrid();
-    int i1, i2, j1, j2, k1, k2; corners(NX, i1, i2); corners(NY, j1, j2); corners(NZ, k1, k2);
-    Box box(GridDims(NX, NY, NZ), [&g](std::size_t n) { return g.act[n] != 0; }, [&g](std::size_t n) { return (std::size_t) g.aidx[n]; }, i1, i2, j1, j2, k1, k2);
+    int i1, i2, j1, j2, k1, k2; corners(GNX, i1, i2); corners(GNY, j1, j2); corners(GNZ, k1, k2);
+    Box box(GridDims(GNX, GNY, GNZ), [&g](std::size_t n) { return g.act[n] != 0; }, [&g](std::size_t n) { return (std::size_t) g.aidx[n]; }, i1, i2, j1, j2, k1, k2);
     CHECK(box.size() == (std::size_t) ((i2 - i1 + 1) * (j2 - j1 + 1) * (k2 - k1 + 1)));
     CHECK(box.I1() == i1 && box.I2() == i2 && box.J1() == j1 && box.J2() == j2 && box.K1() == k1 && box.K2() == k2);
     // the global list enumerates exactly the cells of the box, x fastest, with consecutive data indices; the active list is its restriction to active cells
     std::size_t di = 0, ai = 0;
     const auto& gl = box.global_index_list(); const auto& al = box.index_list();
     for (int k = k1; k <= k2; ++k) for (int j = j1; j <= j2; ++j) for (int i = i1; i <= i2; ++i) {
-        std::size_t n = i + NX * (j + NY * k);
+        std::size_t n = i + GNX * (j + GNY * k);
         CHECK(di < gl.size()); CHECK(gl[di].global_index == n && gl[di].data_index == di);
         if (g.act[n]) { CHECK(ai < al.size()); CHECK(al[ai].global_index == n && al[ai].active_index == (std::size_t) g.aidx[n] && al[ai].data_index == di); ++ai; }
         ++di;
     }
     CHECK(di == gl.size() && ai == al.size());
-    bool threw = false; try { Box bad(GridDims(NX, NY, NZ), [](std::size_t) { return true; }, [](std::size_t n) { return n; }, 0, NX, 0, 0, 0, 0); } catch (const std::invalid_argument&) { threw = true; } CHECK(threw);
-    threw = false; try { Box bad(GridDims(NX, NY, NZ), [](std::size_t) { return true; }, [](std::size_t n) { return n; }, 1, 0, 0, 0, 0, 0); } catch (const std::invalid_argument&) { threw = true; } CHECK(threw);
+    bool threw = false; try { Box bad(GridDims(GNX, GNY, GNZ), [](std::size_t) { return true; }, [](std::size_t n) { return n; }, 0, GNX, 0, 0, 0, 0); } catch (const std::invalid_argument&) { threw = true; } CHECK(threw);
+    threw = false; try { Box bad(GridDims(GNX, GNY, GNZ), [](std::size_t) { return true; }, [](std::size_t n) { return n; }, 1, 0, 0, 0, 0, 0); } catch (const std::invalid_argument&) { threw = true; } CHECK(threw);
 }
 // two operations in sequence: OP1 (harness split) on a symbolic box, then a symbolic second operation on the whole grid
 static void ref_apply(int op, RefCell& c, double x, bool& undefined) {
@@ -52,17 +52,17 @@ static void ref_apply(int op, RefCell& c, double x, bool& undefined) {
 static Fieldprops::ScalarOperation opk(int op) { using O = Fieldprops::ScalarOperation; return op == 0 ? O::EQUAL : op == 1 ? O::MUL : op == 2 ? O::ADD : op == 3 ? O::MIN : O::MAX; }
 extern "C" void h_scalar_ops(void) {
     Grid g = mkgrid();
-    int i1, i2, j1 = 0, j2 = NY - 1, k1, k2; corners(NX, i1, i2); corners(NZ, k1, k2);
+    int i1, i2, j1 = 0, j2 = GNY - 1, k1, k2; corners(GNX, i1, i2); corners(GNZ, k1, k2);
     if (nondet_bool()) j2 = 0;
     auto isact = [&g](std::size_t n) { return g.act[n] != 0; }; auto aix = [&g](std::size_t n) { return (std::size_t) g.aidx[n]; };
-    Box box(GridDims(NX, NY, NZ), isact, aix, i1, i2, j1, j2, k1, k2), all(GridDims(NX, NY, NZ), isact, aix);
+    Box box(GridDims(GNX, GNY, GNZ), isact, aix, i1, i2, j1, j2, k1, k2), all(GridDims(GNX, GNY, GNZ), isact, aix);
     // initial array: symbolic values; symbolic initialised/uninitialised status per cell
     RefCell ref[N]; std::vector<double> data(g.nact); std::vector<value::status> st(g.nact);
     for (int n = 0; n < N; ++n) { ref[n].v = verif_nondet_real(); ref[n].st = (n == 0 || n == 3 || n == N - 1) ? (nondet_bool() ? 1 : 0) : 1; if (g.act[n]) { data[g.aidx[n]] = ref[n].v; st[g.aidx[n]] = ref[n].st ? value::status::deck_value : value::status::uninitialized; } }
     double x1 = verif_nondet_real(), x2 = verif_nondet_real();
     int op2 = (int) verif_concretize(nondet_ulong(), 4);
     bool und_ref = false, threw = false;
-    for (int k = k1; k <= k2; ++k) for (int j = j1; j <= j2; ++j) for (int i = i1; i <= i2; ++i) { int n = i + NX * (j + NY * k); if (g.act[n]) ref_apply(OP1, ref[n], x1, und_ref); }
+    for (int k = k1; k <= k2; ++k) for (int j = j1; j <= j2; ++j) for (int i = i1; i <= i2; ++i) { int n = i + GNX * (j + GNY * k); if (g.act[n]) ref_apply(OP1, ref[n], x1, und_ref); }
     try { apply(opk(OP1), KeywordLocation{}, "ARR", data, st, x1, box.index_list()); } catch (const std::exception&) { threw = true; }
     CHECK(threw == und_ref);                                        // operating on cells without a value is rejected, and only then
     if (threw) return;
@@ -76,9 +76,9 @@ extern "C" void h_scalar_ops(void) {
 // direct assignment from deck data with defaulted entries, then multiplication by deck data
 extern "C" void h_deck_ops(void) {
     Grid g = mkgrid();
-    int i1, i2, j1 = 0, j2 = NY - 1, k1, k2; corners(NX, i1, i2); corners(NZ, k1, k2);
+    int i1, i2, j1 = 0, j2 = GNY - 1, k1, k2; corners(GNX, i1, i2); corners(GNZ, k1, k2);
     auto isact = [&g](std::size_t n) { return g.act[n] != 0; }; auto aix = [&g](std::size_t n) { return (std::size_t) g.aidx[n]; };
-    Box box(GridDims(NX, NY, NZ), isact, aix, i1, i2, j1, j2, k1, k2);
+    Box box(GridDims(GNX, GNY, GNZ), isact, aix, i1, i2, j1, j2, k1, k2);
     Fieldprops::keywords::keyword_info<double> info; Fieldprops::FieldData<double> fd(info, g.nact, 0);
     RefCell ref[N];
     for (int n = 0; n < N; ++n) { ref[n].v = verif_nondet_real(); ref[n].st = (n == 0 || n == N - 1) ? (int) verif_concretize(nondet_ulong(), 2) : (n % 3); if (g.act[n]) { fd.data[g.aidx[n]] = ref[n].v; fd.value_status[g.aidx[n]] = (value::status) (ref[n].st == 0 ? (int) value::status::uninitialized : ref[n].st == 1 ? (int) value::status::deck_value : (int) value::status::valid_default); } }
@@ -89,7 +89,7 @@ extern "C" void h_deck_ops(void) {
     assign_deck(info, kw, fd, dd, ds, box);
     std::size_t d = 0;
     for (int k = k1; k <= k2; ++k) for (int j = j1; j <= j2; ++j) for (int i = i1; i <= i2; ++i, ++d) {
-        int n = i + NX * (j + NY * k); if (!g.act[n]) continue;
+        int n = i + GNX * (j + GNY * k); if (!g.act[n]) continue;
         // a deck value always overwrites; a defaulted deck entry (with a value) only fills a cell that has none; an empty default changes nothing
         if (dsi[d] == 0) { ref[n].v = dd[d]; ref[n].st = 1; } else if (dsi[d] == 1 && ref[n].st == 0) { ref[n].v = dd[d]; ref[n].st = 2; }
     }
